@@ -32,7 +32,35 @@ D2 = "D2-unobserved-arm-covariance"
 
 
 @st.composite
+def many_arms_plan_st(draw, tier):
+    """A catalogue that grows past 256 arms through add_arm, then one batch in which every arm occurs."""
+    name = draw(st.sampled_from(["LinGreedy", "LinUCB"]))
+    lam = draw(st.sampled_from([1, 0.5, 2]))
+    lp = [name, dict({"epsilon": 0} if name == "LinGreedy" else {"alpha": draw(st.sampled_from([0, 1]))},
+                     l2_lambda=lam, scale=False)]
+    n0 = draw(st.sampled_from([250, 255, 256]))
+    arms = list(range(1000, 1000 + n0))
+    cfg = {"arms": arms, "lp": lp, "np": None, "seed": draw(st.integers(0, 2 ** 20)), "n_jobs": 1, "backend": None,
+           "arm_kind": "int"}
+    d = draw(st.integers(1, 2))
+    val = st.integers(-3, 3)
+
+    def batch(labels):
+        return [list(labels), [draw(st.integers(-5, 5)) for _ in labels], [[draw(val) for _ in range(d)] for _ in labels]]
+
+    ops_ = [["fit"] + batch([draw(st.sampled_from(arms)) for _ in range(draw(st.integers(1, 8)))])]
+    added = list(range(3000, 3000 + draw(st.sampled_from([3, 6, 10]))))
+    ops_ += [["add_arm", a] for a in added]
+    everyone = draw(gen.perm_st(arms + added))
+    ops_.append(["partial_fit"] + batch(everyone))
+    q = [[draw(val) for _ in range(d)] for _ in range(draw(st.integers(1, 2)))]
+    return {"config": cfg, "ops": ops_, "query": q}
+
+
+@st.composite
 def plan_st(draw, tier):
+    if draw(st.integers(0, 79)) == 0:
+        return draw(many_arms_plan_st(tier))
     name = draw(st.sampled_from(["LinGreedy", "LinUCB", "LinUCB", "LinTS", "LinTS"]))
     lam = draw(st.sampled_from([1, 1.0, 0.25, 0.5, 2, 10, 100, 4.5]))
     if draw(st.integers(0, 2)) == 0:
